@@ -277,7 +277,7 @@ def claim(stats, facts, neg, mode, syms, meta, lemmas='unary', refine=True, time
             soft = True
     _CEX_COUNT[key] = _CEX_COUNT.get(key, 0) + 1
     cex = dict(meta)
-    cex['inputs'] = model_inputs(m, mode, syms) if mode is not None else {k: smt.model_val(m, v) for k, v in syms.items()}
+    cex['inputs'] = model_inputs(m, mode, syms) if mode is not None else {k: smt.model_val(m, v) for k, v in syms.items() if v is not None}
     cex['soft'] = soft
     return cex
 
